@@ -44,6 +44,7 @@ def verify_function(src, con, models, axioms=(), prefix=None, prune=True):
         return dict(obligations=[], paths=0, error=f"function {con.qual} not found in {con.file}", meta={})
     eng = Engine(src, con.file, models, sink, list(axioms), prune)
     eng.prefix = prefix or con.qual
+    eng.index_function(fd)
     eng.cur_contract = con
     eng.loop_counter = [0]
     eng.cls_ctx = con.qual.split(".")[0] if "." in con.qual else None
@@ -72,6 +73,7 @@ def verify_function(src, con, models, axioms=(), prefix=None, prune=True):
     eng.assume_clauses(st, con.requires(c0))
     for d in con.spec_defs(c0):
         st.assume(d)
+    eng.assume_clauses(st, [("lemma:" + n, cl) for n, cl in con.lemmas(c0)])
     meta = {"requires": [str(eng.clause_formula(cl))[:200] for _, cl in con.requires(c0)]}
     # vacuity guard: requires satisfiable
     try:
@@ -79,7 +81,8 @@ def verify_function(src, con, models, axioms=(), prefix=None, prune=True):
     except OutOfSubset as ex:
         return dict(obligations=[], paths=0, error=str(ex), meta=meta)
     npaths = 0
-    raise_conds = {exc: f(c0) for exc, f in con.raises.items()}
+    raise_conds = {exc: (f[1] if isinstance(f, tuple) else f)(c0) for exc, f in con.raises.items()}
+    only_if = {exc for exc, f in con.raises.items() if isinstance(f, tuple)}
     for kind, pay, s1 in results:
         npaths += 1
         if kind == NEXT:
@@ -92,8 +95,13 @@ def verify_function(src, con, models, axioms=(), prefix=None, prune=True):
                 return dict(obligations=[], paths=0, error=str(ex), meta=meta)
             for name, cl in ens:
                 eng.check_clause(s1, f"ensures.{name}", cl, "post")
+                if name.startswith("assert:"):
+                    # proof step (like a Dafny assert): checked above, then available to the later clauses
+                    s1.assume(eng.clause_formula(cl), name=name)
             if con.raises_iff:
                 for exc, cond in raise_conds.items():
+                    if exc in only_if:
+                        continue
                     eng.oblige(s1, f"raises.{exc}.only-if-not-returning", z3.Not(cond) if not isinstance(cond, bool) else (not cond), "raises")
             frame_obligations(eng, con, c0, s1, entry_heap, normal=True)
         elif kind == RAISE:
@@ -143,24 +151,77 @@ def frame_obligations(eng, con, c0, s1, entry_heap, normal):
 # --------------------------------------------------------------------------
 # discharge
 # --------------------------------------------------------------------------
-def discharge(ob, timeout_ms=10000, want_model=True):
-    """-> dict(verdict 'unsat'|'sat'|'unknown', time_s, model, smt2)"""
+def _check(hyps, goal, timeout_ms, seed=0):
     s = z3.Solver()
     s.set("timeout", timeout_ms)
+    if seed:
+        s.set("random_seed", seed)
     for a in str_axioms():
         s.add(a)
-    for h in ob.hyps:
+    for h in hyps:
         s.add(h)
-    s.add(z3.Not(ob.goal))
+    s.add(z3.Not(goal))
     t0 = time.time()
     r = s.check()
-    dt = time.time() - t0
-    out = {"verdict": str(r), "time_s": round(dt, 4)}
+    return r, time.time() - t0, s
+
+
+def _keywords(name):
+    """clause keyword of an obligation name: 'f/ensures.INV.clock-aligned@split0[...]' -> 'clock-aligned'"""
+    base = name.split("[")[0].split("/")[-1]
+    base = base.split("@")[0]
+    return base.split(".")[-1]
+
+
+def discharge(ob, timeout_ms=10000, want_model=True):
+    """-> dict(verdict 'unsat'|'sat'|'unknown', time_s, model).  Ladder on unknown (dropping
+    hypotheses is always sound; a 'sat' obtained after dropping hypotheses is NOT a counterexample)."""
+    r, dt, s = _check(ob.hyps, ob.goal, timeout_ms)
+    tried = ["full"]
+    if r == z3.unknown:
+        names = ob.meta.get("hyp_names") or [None] * len(ob.hyps)
+        kw = _keywords(ob.name)
+        keep = []
+        for h, n in zip(ob.hyps, names):
+            quantified = z3.is_quantifier(h) or (z3.is_app(h) and any(z3.is_quantifier(c) for c in h.children()))
+            if not quantified or n is None or kw in n or "bridge" in n or "append-only" in n or n in ("valid_channel",):
+                keep.append(h)
+        if len(keep) < len(ob.hyps):
+            r2, dt2, s2 = _check(keep, ob.goal, timeout_ms)
+            tried.append("sliced")
+            dt += dt2
+            if r2 == z3.unsat:
+                r, s = r2, s2
+        if r == z3.unknown:
+            r3, dt3, s3 = _check(ob.hyps, ob.goal, timeout_ms, seed=7)
+            tried.append("seed7")
+            dt += dt3
+            if r3 != z3.unknown:
+                r, s = r3, s3
+    out = {"verdict": str(r), "time_s": round(dt, 4), "tried": tried}
     if r == z3.sat and want_model:
         m = s.model()
-        out["model"] = {str(d): str(m[d]) for d in m.decls() if d.arity() == 0 and "!" not in str(d)[:0]}
+        out["model"] = {str(d): str(m[d]) for d in m.decls() if d.arity() == 0}
         out["model_obj"] = m
     if r == z3.unknown:
         out["reason"] = s.reason_unknown()
     out["solver"] = s
     return out
+
+
+def verify_lemma(name, axioms=()):
+    """-> list of Obligation for a registered lemma (pure SMT; no code)."""
+    from .contracts import LEMMAS
+    build, text = LEMMAS[name]
+    hyps, concl, skf = build()
+    eng = Engine(None, None, {}, [], list(axioms), False)
+    eng.prefix = f"lemma/{name}"
+    st = State()
+    eng.assume_clauses(st, hyps)
+    vs = [fresh("k", so) for so in concl.sorts]
+    prem, c = concl.body(*vs)
+    for f in skf(*vs):
+        st.assume(f, name="skolem-def")
+    st.assume(prem)
+    eng.oblige(st, "statement", c, "lemma")
+    return eng.sink
